@@ -33,7 +33,44 @@ Theorem C08_documents_preserved : forall g docs, line_preserving g ->
 Proof. exact documents_preserved_proof. Qed.
 Print Assumptions C08_documents_preserved.
 
-(* with an identity child every document is reproduced exactly *)
+(* The same for children WITH MEMORY.  A child is any answer function A on the list of all lines it
+   reads that returns one LF-free line per line ([one_line_per_line]); its i-th answer may depend on
+   everything read (numbering, context ...).  The tool ([b64filter_docs_stream], child as a function
+   on byte streams) then produces for document k exactly the answer lines at the positions of
+   document k's lines ([docs_spec_stream]: the answer list cut into consecutive segments of the
+   documents' line counts), joined by LF, final LF iff document k had one.  The stateless child of
+   the theorem above is the instance A = map g (docs_spec_stream_map). *)
+Theorem C08_documents_preserved_stream : forall A docs, one_line_per_line A ->
+  b64filter_docs_stream (stream_of A) b64f_collector_strip_cr docs
+  = match encode_all (docs_spec_stream A docs) with Some o => BOk o | None => BFuel end.
+Proof. exact documents_preserved_stream_proof. Qed.
+Print Assumptions C08_documents_preserved_stream.
+
+Theorem C08_stateless_is_instance : forall g docs, docs_spec_stream (map g) docs = map (doc_spec g) docs.
+Proof. exact docs_spec_stream_map. Qed.
+Print Assumptions C08_stateless_is_instance.
+
+(* The whole tool, most general form: stdin = LF-terminated lines ls optionally followed by an
+   UNTERMINATED last line t (t = [] : none), each line decoding (padded or not) to a document;
+   any child with memory that writes one line per line. *)
+Theorem C08_tool_spec_general : forall A ls t docs, one_line_per_line A ->
+  Forall2 (fun l d => base64_decode l = DOk d) (ls ++ opt_tail t) docs ->
+  forallb (no_delim 10) ls = true -> no_delim 10 t = true -> (forall l a, In l ls -> l <> a ++ [13]) ->
+  forallb bytes_okb (docs_spec_stream A docs) = true ->
+  b64filter_tool_stream (stream_of A) (unrecords 10 ls ++ t)
+  = BOk (unrecords 10 (map rfc4648 (docs_spec_stream A docs))).
+Proof. exact tool_spec_general_proof. Qed.
+Print Assumptions C08_tool_spec_general.
+
+(* non-vacuity: a numbering child (answer i = i-th digit ++ line), two documents, last stdin line unterminated *)
+Example C08_nonvacuous_numbering :
+  let A := fun ls => map (fun il => (48 + Z.of_nat (fst il)) :: 58 :: snd il) (combine (seq 1 (length ls)) ls) in
+  b64filter_tool_stream (stream_of A) ([89; 81; 112; 105; 10] ++ [89; 119; 61; 61])     (* "YQpi" LF "Yw==" : a LF b | c *)
+  = BOk [77; 84; 112; 104; 67; 106; 73; 54; 89; 103; 61; 61; 10; 77; 122; 112; 106; 10]. (* "1:a LF 2:b" | "3:c" *)
+Proof. vm_compute. reflexivity. Qed.
+
+(* the specification function itself: with an identity child every document is reproduced exactly
+   (a fact about doc_spec only; the tool-level statement is C08_tool_identity below) *)
 Theorem C08_identity_child : forall d, doc_spec (fun l => l) d = d.
 Proof. exact identity_child_proof. Qed.
 Print Assumptions C08_identity_child.
